@@ -63,6 +63,14 @@ Theorem C09_control_plain_password : forall c, enc_mode (lc_encrypt c) = false -
   exists bs f, enc_login c = Some bs /\ parse_login_record bs = Some f /\ lf_password f = lc_password c.
 Proof. exact record_plain_password. Qed.
 
+(* "(the default configuration)": for EVERY combination of the settings of a connection description (TLS enforced or
+   not, validation skipped, debug logging, port, network, host, timeouts, database: the 2^10 kinds of lg.InfoOf) the
+   configuration tds.NewLoginConfig returns asks for password encryption, so that the theorems above apply to it. *)
+Theorem C09_default_config_encrypts : forall mask e, In (mask, e) g_default_encrypt -> with_encryption e = true.
+Proof. exact default_config_encrypts. Qed.
+Theorem C09_default_config_table_complete : map fst g_default_encrypt = map Z.of_nat (seq 0 1024).
+Proof. exact default_config_table_complete. Qed.
+
 Print Assumptions C09_noninterference.
 Print Assumptions C09_outcome_independent_of_secrets.
 Print Assumptions C09_second_message_shape.
@@ -71,3 +79,5 @@ Print Assumptions C09_first_message.
 Print Assumptions C09_control_plain_password.
 Print Assumptions C09_second_message_size.
 Print Assumptions C09_second_message_wire.
+Print Assumptions C09_default_config_encrypts.
+Print Assumptions C09_default_config_table_complete.
